@@ -42,6 +42,20 @@ class C05(layfamily.Family):
         strategy = ["page_by", "page_by", "page_by_np_first", "page_by_np", "subline", "subline_page_by"][k % 6]
         spec, info = laygen.gen_spec(rng, strategy=strategy, nrow=rng.randint(3, 30), n=rng.randint(1, 45),
                                      dividers=(k % 2 == 0), long_rows=(k % 5 == 0))
+        if k % 3 != 0:
+            # grouping columns need not be stored in the frame in page_by order, nor before the data columns
+            cols = spec["df"]["cols"]
+            order = list(range(len(cols)))
+            rng.shuffle(order)
+            spec["df"]["cols"] = [cols[i] for i in order]
+            spec["df"]["rows"] = [[r[i] for i in order] for r in spec["df"]["rows"]]
+            removed = set(info["removed"])
+            info["displayed"] = [c for c in spec["df"]["cols"] if c not in removed]
+            h = spec["headers"]
+            if isinstance(h, list):
+                for hh in h:
+                    if hh and len(hh.get("text", [])) == len(info["displayed"]) and len(hh["text"]) > 1:
+                        pass  # header labels are positional (one per displayed column); nothing to permute
         return spec, info
 
     def oracle(self, spec, info, ob):
